@@ -23,6 +23,9 @@ type World struct {
 	FieldNames map[*types.Var]string // struct field -> "pkg.Type.Field"
 	consts     map[string]string     // "pkgname.Const" -> exact value
 	obsMemo    map[*types.Func]int   // 1 observer, 2 not
+	detMemo    map[*types.Func]bool
+	obsUse     map[types.Object]bool
+	obsDef     map[ast.Expr]bool
 	Vocab      VocabSnapshot         // local signatures recorded when the rule tables were written (nil: none)
 	Renamed    []string              // renamed locals recognised in this run
 }
@@ -128,11 +131,12 @@ func (w *World) build(name string, fn *load.Func, lit *ast.FuncLit, recv *ast.Fi
 	info := fn.Pkg.TypesInfo
 	u := &Unit{W: w, Name: name, Fn: fn, Lit: lit, Body: body, Type: ft, pc: map[*flow.Block]*flow.F{}}
 	u.G = flow.Build(body, w.noReturn(info))
-	var alias map[types.Object]string
+	var alias map[types.Object]flow.LocalAlias
 	if outer == nil && w.Vocab != nil {
-		alias = w.aliasesFor(name, info, body)
+		alias = w.aliasesFor(name, info, recv, ft, body)
 	}
 	u.C = flow.NewCanonAliased(info, fn.Pkg.Types, recv, ft, body, outer, alias)
+	u.C.ObsOK = func(o types.Object, def ast.Expr, use *ast.Ident) bool { return w.obsExpandOK(u, o, def, use) }
 	u.Sites = flow.CollectSites(u.G, info)
 	return u
 }
